@@ -3605,8 +3605,8 @@ class GraphicObject:
         ):
             try:
                 self.stroke.opacity = float(stroke_opacity)
-            except ValueError:
-                pass
+            except (ValueError, OverflowError):
+                pass  # malformed or infinite opacity: ignored
         fill = values.get(SVG_ATTR_FILL)
         self.fill = Color(fill) if fill is not None else None
         fill_opacity = values.get("fill_opacity")
@@ -3618,8 +3618,8 @@ class GraphicObject:
         ):
             try:
                 self.fill.opacity = float(fill_opacity)
-            except ValueError:
-                pass
+            except (ValueError, OverflowError):
+                pass  # malformed or infinite opacity: ignored
         self.stroke_width = Length(values.get("stroke_width", 1.0)).value()
         self.stroke_width = Length(
             values.get(SVG_ATTR_STROKE_WIDTH, self.stroke_width)
@@ -5472,8 +5472,9 @@ class Arc(Curve):
         self.start = start
         end = Point(end)
         self.end = end
-        if start == end or rx == 0 or ry == 0:
+        if start == end or rx * rx == 0 or ry * ry == 0:
             # If start is equal to end, there are infinite number of circles so these void out.
+            # (A radius whose square underflows to zero, e.g. 1e-200, is a zero radius for the arithmetic below.)
             # We still permit this kind of arc, but SVG parameterization cannot be used to achieve it.
             self.sweep = 0
             self.prx = Point(start)
@@ -9327,7 +9328,8 @@ class SVG(Group):
                             if s.height == 0 or s.width == 0:
                                 raise ZeroDivisionError
                             viewport_transform = s.viewbox_transform
-                        except ZeroDivisionError:
+                        except (ZeroDivisionError, ValueError):
+                            # (ValueError: the size of the element cannot be resolved, e.g. width="5em")
                             # The width or height was zero.
                             # https://www.w3.org/TR/SVG11/struct.html#SVGElementWidthAttribute
                             # "A value of zero disables rendering of the element."
@@ -9394,8 +9396,11 @@ class SVG(Group):
                                 )
                                 if not isinstance(v, Length):
                                     values[attr] = v
+                                else:
+                                    # not resolvable here (em, ex, ...): the offset is ignored
+                                    del values[attr]
                             except ValueError:
-                                pass
+                                del values[attr]
                     s = Use(values)
                     if SVG_ATTR_TRANSFORM in s.values:
                         # Update value in case x or y applied.
